@@ -2,6 +2,7 @@
 package c04
 
 import (
+	"time"
 	"context"
 	"fmt"
 	"os"
@@ -25,6 +26,8 @@ type Scenario struct {
 	Stale  int
 	// RejectFirst puts a rejecting handler in front (its Name is used in the log).
 	RejectFirst bool
+	// Ctx: "" = context.Background | cancel = a cancellable context (what cmd/gensign passes) | timeout = a 60 s deadline
+	Ctx string
 }
 
 type Fault struct {
@@ -127,7 +130,18 @@ func runOnce(s Scenario, f Fault) (res runResult, infra error) {
 	}
 	param, _ := vh.BuildParam(vh.ParamSpec{LogName: "alice", Policy: "NONS", ReqUser: "alice", ReqHost: "laptop", ClientIP: "172.17.0.1", TransID: "00000000aa"})
 	addsBefore := len(p.Adds())
-	res.crash = vh.Catch(func() { res.err = gensign.Run(context.Background(), param, handlers, ca) })
+	ctx := context.Background()
+	switch s.Ctx {
+	case "cancel":
+		c2, cancel := context.WithCancel(ctx)
+		defer cancel()
+		ctx = c2
+	case "timeout":
+		c2, cancel := context.WithTimeout(ctx, 60*time.Second)
+		defer cancel()
+		ctx = c2
+	}
+	res.crash = vh.Catch(func() { res.err = gensign.Run(ctx, param, handlers, ca) })
 	res.frames = p.Frames()
 	res.caCalls = ca.Calls
 	res.caMarks = marks
@@ -283,12 +297,13 @@ func exec(s Scenario) (vh.Outcome, error) {
 	return out, nil
 }
 
-const rule = "scenarios: the real regular handler, or a harness handler producing 1..3 agent keys x 1..3 requests through the repository's AgentKey, CA returning 1..3 certificates per request, 0..2 stale labelled certificates in the agent, optionally a rejecting handler in front. Per scenario a fault-free run fixes the number of agent operations n and CA calls m; then EVERY (operation index 0..n-1) x {failure reply, connection closed}, every CA call x {error, panic, error handed back together with certificates} and a panic in each of Name / Authenticate / Generate / CSRs / AddCertsToAgent is executed in a fresh world (exhaustive per scenario; scenarios random). Oracle: challenge fault => AllAuthFailed; agent fault before the first CA call => a typed generation error; CA error => SignerSignErr and no further CA call; list / remove / add-certificate fault => AgentOpCertErr; any panic => Panic; always a *gensign.Error, the process survives; fault-free: nil, CA calls = all requests in order, every returned certificate in the agent; always: certificates added are a subset of those the CA returned. Non-trivial: at least one injected fault was reached and judged."
+const rule = "scenarios: the real regular handler, or a harness handler producing 1..3 agent keys x 1..3 requests through the repository's AgentKey, CA returning 1..3 certificates per request, 0..2 stale labelled certificates in the agent, optionally a rejecting handler in front, run under context.Background, a cancellable context (what cmd/gensign passes) or a deadline context (each case is journaled first: a fault that kills the process instead of coming back as an error is reported with its scenario). Per scenario a fault-free run fixes the number of agent operations n and CA calls m; then EVERY (operation index 0..n-1) x {failure reply, connection closed}, every CA call x {error, panic, error handed back together with certificates} and a panic in each of Name / Authenticate / Generate / CSRs / AddCertsToAgent is executed in a fresh world (exhaustive per scenario; scenarios random). Oracle: challenge fault => AllAuthFailed; agent fault before the first CA call => a typed generation error; CA error => SignerSignErr and no further CA call; list / remove / add-certificate fault => AgentOpCertErr; any panic => Panic; always a *gensign.Error, the process survives; fault-free: nil, CA calls = all requests in order, every returned certificate in the agent; always: certificates added are a subset of those the CA returned. Non-trivial: at least one injected fault was reached and judged."
 
 func TestC04Faults(t *testing.T) {
-	vh.Run(t, vh.Spec[Scenario]{Property: "C04", Name: "TestC04Faults", Rule: rule,
+	vh.Run(t, vh.Spec[Scenario]{Property: "C04", Name: "TestC04Faults", Rule: rule, Journal: true,
 		Gen: func(t *rapid.T) Scenario {
-			s := Scenario{Real: rapid.Bool().Draw(t, "real"), NCerts: rapid.IntRange(1, 3).Draw(t, "ncerts"), Stale: rapid.IntRange(0, 2).Draw(t, "stale"), RejectFirst: rapid.Bool().Draw(t, "rejectFirst")}
+			s := Scenario{Real: rapid.Bool().Draw(t, "real"), NCerts: rapid.IntRange(1, 3).Draw(t, "ncerts"), Stale: rapid.IntRange(0, 2).Draw(t, "stale"), RejectFirst: rapid.Bool().Draw(t, "rejectFirst"),
+				Ctx: rapid.SampledFrom([]string{"", "cancel", "cancel", "timeout"}).Draw(t, "ctx")}
 			if !s.Real {
 				s.NKeys = rapid.IntRange(1, 3).Draw(t, "nkeys")
 				s.NReqs = rapid.IntRange(1, 3).Draw(t, "nreqs")
@@ -302,15 +317,15 @@ func TestC04AllScenarios(t *testing.T) {
 	var cases []Scenario
 	for _, stale := range []int{0, 2} {
 		for _, nc := range []int{1, 2} {
-			cases = append(cases, Scenario{Real: true, NCerts: nc, Stale: stale, RejectFirst: stale == 0})
+			cases = append(cases, Scenario{Real: true, NCerts: nc, Stale: stale, RejectFirst: stale == 0, Ctx: []string{"cancel", "timeout"}[nc-1]})
 			for _, nk := range []int{1, 2} {
 				for _, nr := range []int{1, 2} {
-					cases = append(cases, Scenario{NKeys: nk, NReqs: nr, NCerts: nc, Stale: stale, RejectFirst: nk == 2})
+					cases = append(cases, Scenario{NKeys: nk, NReqs: nr, NCerts: nc, Stale: stale, RejectFirst: nk == 2, Ctx: []string{"", "cancel"}[nr-1]})
 				}
 			}
 		}
 	}
-	vh.Enumerate(t, vh.Spec[Scenario]{Property: "C04", Name: "TestC04AllScenarios", Exhaustive: true,
+	vh.Enumerate(t, vh.Spec[Scenario]{Property: "C04", Name: "TestC04AllScenarios", Exhaustive: true, Journal: true,
 		Rule: "the grid {real handler, harness handler with 1..2 keys x 1..2 requests} x {1, 2 certificates} x {0, 2 stale certificates} (20 scenarios), each with its complete single-fault enumeration; same oracle",
 		Exec: exec}, cases)
 }
